@@ -43,9 +43,16 @@ ASSUMPTIONS = ["regular expressions on the command line are restricted to ^liter
 TECHNIQUE = ("Coq proof over an executable Gallina model of ComputeValues/ComputeFlows/Performance/Perf/weights.Query/Report "
              "with rationals for float64 + correspondence within tolerances on generated journals + the property's executable "
              "statement evaluated on the binary's output, cross-checked against `knut balance -v`")
-LEVEL_TEXT = ("C20_weights_match_balance, C20_weight_def, C20_group_sum, C20_top_100, C20_every_period (repaired wiring; "
-              "C20_every_period_refuted for the pinned returns.go), C20_external_flows_zero (repaired flow filter; _refuted for the "
-              "pinned one), C20_no_flow_ratio: Coq theorems over Q for every journal and configuration, closed under the global context.  "
+LEVEL_TEXT = ("C20_weights_match_balance (full: for days with ascending dates -- C20_command_days_ascending: those of the commands -- "
+              "the V1 entry of commodity c on day d == Spec portfolio_value == portfolio_value_by_account, the sum over the A/L "
+              "accounts passing the filter of their valued positions, for every account list that covers the bookings; window from the "
+              "journal's first day), C20_weight_def, C20_group_sum, C20_top_100, C20_every_period (repaired wiring; "
+              "C20_every_period_refuted for the pinned returns.go), C20_external_flows_zero (full, repaired flow filter: for every run of "
+              "`portfolio returns`, every stretch of Performance records whose valued days carry only untargeted transactions -- no "
+              "@performance, no value adjustment -- satisfies V1 = V0 + inflow + outflow day by day and reports 0 or an undefined number, C20_external_flows_zero_line: that number is the line printed for the period end, C20_external_flows_zero_source: the hypothesis read off the journal's days before the stages -- no price directive and no @performance annotation on the days of the period, C20_quiet_days_valued: such days get no value adjustment; "
+              "_refuted for the pinned flow filter), C20_no_flow_ratio: Coq theorems over Q for every journal and configuration, closed "
+              "under the global context; Examples C20_w5_deposit_period / C20_w5_weights_values (hypotheses hold of a journal with a "
+              "deposit-only February and unchanged prices).  "
               "Mapping (-m): C20_mapped_entries (the query with -m books the entries of the query without -m on the paths map_path "
               "gives), C20_mapping_law (weight of the node at p of the mapped report = sum of the unmapped entries sent to p or below), "
               "C20_mapping_law_local (= entries folded into p itself + children), C20_mapping_law_table (the executable statement "
@@ -54,7 +61,9 @@ LEVEL_TEXT = ("C20_weights_match_balance, C20_weight_def, C20_group_sum, C20_top
               "prefix-free unmapped paths and no commodity hidden by a level-0 rule); Example C20_w3_partial_fold (`-m 1,^Equity:US`: "
               "the row Equity is leaf and group at once).")
 LEVEL_NOTE = ("partial: float rounding is outside the theorems (rationals in the model); the model-to-code tie is sampled within "
-              "tolerances. C20_mapping_law / _local (sum over a whole subtree) assume defined weights (no zero total), as "
+              "tolerances. No theorem of Properties/C20.v is a _partial statement any more. C20_weights_match_balance: the by-account "
+              "form assumes that the filter cannot tell apart equally named accounts (names_respected; proved for the command's "
+              "filters on syntactically valid accounts, C20_names_respected). C20_external_flows_zero: the hypothesis is on the VALUED days (no transaction with targets, which includes Valuate's value adjustments); C20_external_flows_zero_source derives it from the builder's days (no price declared on the day, no annotated transaction); the step from the directive list to the builder's days (Spec no_price_in / only_external_in on the source text, as used in C20_external_flows_zero_refuted) is not proved. C20_mapping_law / _local (sum over a whole subtree) assume defined weights (no zero total), as "
               "C20_group_sum does; C20_mapping_law_table does not. mapping_law_b presupposes prefix-free paths in the table without "
               "-m (C20_w4_needs_prefix_free: false of correct tables otherwise). Trusted: kernel, extraction, harness, the parsers "
               "named in the trusted base.")
